@@ -26,6 +26,7 @@ ASSUMPTIONS = [
     "quantised objects",
 ]
 TIME_LIMIT = {"quick": 1200, "thorough": 7200}
+from . import _w as _W; RULE, TRUSTED, ASSUMPTIONS = RULE + _W.RULE, TRUSTED + _W.TRUSTED, ASSUMPTIONS + _W.ASSUMPTIONS  # noqa: E402, E702
 
 RW = ["xyz", "sdf", "pdb"]
 
